@@ -86,7 +86,7 @@ KINDS_MIN = 25
 def floors(m, tier):
     out = []
     c, cov = m['counters'], m['cover']
-    need = 20000 if tier == 'quick' else 400000
+    need = 14000 if tier == 'quick' else 300000
     if c.get('perturbed_calls', 0) < need:
         out.append('only %d perturbed calls' % c.get('perturbed_calls', 0))
     for mp in ('ha', 'sm', 'hr', 'spa'):
